@@ -306,7 +306,7 @@ def as_svg_data_uri(matrix, matrix_size, scale=1, border=None,
               svgns=svgns, title=title, desc=desc, svgclass=svgclass,
               lineclass=lineclass, omitsize=omitsize, encoding=encoding,
               svgid=svgid, unit=unit, svgversion=svgversion, nl=nl, **kw)
-    return f'data:image/svg+xml{(";charset=" + encoding if not omit_charset else "")},' \
+    return f'data:image/svg+xml{(";charset=" + (encoding or "utf-8") if not omit_charset else "")},' \
            + encode(_replace_quotes(buff.getvalue()))
 
 
